@@ -218,7 +218,7 @@ fn ok_err<T, E>(r: Result<T, E>) -> &'static str {
 }
 
 // ---- server in a given state, then one hostile message (and a ping afterwards)
-fn server_in_state(state: usize) -> Option<(ServerSession, Peer)> {
+pub fn server_in_state(state: usize) -> Option<(ServerSession, Peer)> {
     let (mut srv, rs) = ServerSession::new(ServerSessionConfig::new()).ok()?;
     let mut peer = Peer::new();
     for r in rs.iter() {
@@ -267,7 +267,7 @@ fn server_in_state(state: usize) -> Option<(ServerSession, Peer)> {
     Some((srv, peer))
 }
 
-fn client_in_state(state: usize) -> Option<(ClientSession, Peer)> {
+pub fn client_in_state(state: usize) -> Option<(ClientSession, Peer)> {
     let (mut c, _) = ClientSession::new(ClientSessionConfig::new()).ok()?;
     let mut peer = Peer::new();
     let take = |peer: &mut Peer, r: Result<ClientSessionResult, rml_rtmp::sessions::ClientSessionError>| {
